@@ -76,7 +76,9 @@ def dispatcher_skeleton(cx, path, delegate):
     cx.saw(body)
     cfg = Cfg(body); du = DefUse(body); sl = Slice(body, du, pass_through=NO_INDEX_PASS)
     out = {}
-    eqs = [t for t in body.calls("=eq") if any(a.is_const and a.cstr() == SVC for a in t.args)]
+    from vlib.cfg import const_strings
+    _slc = Slice(body, du)
+    eqs = [t for t in body.calls("=eq", "=ne") if any((a.is_const and a.cstr() == SVC) or (not a.is_const and SVC in const_strings(body, _slc, a)) for a in t.args)]
     out["literal"] = len(eqs) == 1 and any(k == "arg" and o == 2 for a in eqs[0].args for k, o in sl.origins(a))
     ck = body.calls("=contains_key"); ix = [t for t in body.calls("=index") if "HashMap" in t.callee.resolved]
     def field_of(t):
